@@ -11,7 +11,7 @@ from typing import List
 from fjv import engines
 from fjv.arena import Arena, Block
 from fjv.core import Check
-from fjv.stl_common import compare, oracle, run_behaviours
+from fjv.stl_common import assemble_blaming, compare, oracle, run_behaviours
 
 VARS = ["x", "y", "z", "t", "u"]
 ND = 70
@@ -114,17 +114,8 @@ def run_width(chk: Check, fjm_run, w, sizes, nseq, maxlen, npairs, rng, engine="
         cheap = {"zero", "one", "mov", "swap", "xor", "xor_zero", "or", "and", "not", "if", "if0", "if1", "cmp", "shr", "shl", "shra", "ror", "rol",
                  "inc", "dec", "neg", "add", "sub", "inc1b", "add1b"}
         blocks = [b for b in blocks if b.key in cheap]
-    arena = None
-    while True:
-        arena = Arena(fjm_run, w, "bit", VARS, ND if w > 16 else 12, blocks, engine=engine, init=init)
-        try:
-            arena.assemble()
-            break
-        except FlipJumpException as e:
-            arena.close()
-            if "Not enough space" not in str(e) and "verlap" not in str(e) or len(blocks) < 8:
-                raise
-            blocks = blocks[: len(blocks) * 2 // 3]
+    arena, blocks = assemble_blaming(chk, lambda bl: Arena(fjm_run, w, "bit", VARS, ND if w > 16 else 12, bl, engine=engine, init=init), blocks,
+                                     f"bit w={w}", min_blocks=8)
     try:
         ND_CUR[0] = arena.nd
         behs = sequences(rng, blocks, nseq, maxlen) + all_pairs(rng, blocks, npairs)
